@@ -17,7 +17,14 @@ Reading of the statement
     the j-th of the second stack" holds for every call, also when the same objects were handed to
     compare() before (round 4, `check_session`): each call of a session is judged on a pristine copy of
     the ORIGINAL numbers, a call must leave its inputs bit-identical, and a read-only array is a valid
-    input.
+    input;
+  * (round 5) "for every pair of RDMs ... values" includes RDMs of any magnitude: a case may list RDMs
+    multiplied by exact powers of two (2^-90 .. 2^+60).  The definition is evaluated in a scale-safe way:
+    every vector is divided (exactly, in fractions) by its largest absolute entry before any float is formed
+    - all similarities are invariant under that, the squared Bures metric is rebuilt from the two factors -
+    so the embeddability test, the 0/0 test and every tolerance are relative to the data.  In addition the
+    scale laws are checked on the code itself (claim `scale`): compare() of the scaled stacks equals compare()
+    of the listed ones (similarities), resp. 2^e times it (squared Bures metric, common exponent e).
 """
 import itertools
 import math
@@ -209,6 +216,57 @@ def fidelity(a, b):
     return float(np.linalg.svd(psd_sqrt(a) @ psd_sqrt(b), compute_uv=False).sum())
 
 
+
+# ---------------------------------------------------------------- scale-safe definitions (round 5)
+
+def rec(n, v, e, method):
+    """an RDM vector prepared for the definitions: divided exactly by its largest absolute entry `c`
+    (c = 1 for the zero vector); `g` = centred kernel of the normalised vector (Bures only)"""
+    c = max((abs(a) for a in v), default=F(0)) or F(1)
+    vn = [a / c for a in v]
+    return {'v': vn, 'c': c, 'e': e, 'g': kernel(n, vn) if method.startswith('bures') else None}
+
+
+def embeddable(r):
+    g = r['g']
+    return not (np.linalg.eigvalsh(g).min() < -1e-9 or np.trace(g) <= 1e-12)
+
+
+def define_pair(method, a, b, vinv):
+    """(value of the definition or None for 0/0, magnitude the absolute tolerance refers to)"""
+    x, y = a['v'], b['v']
+    if method == 'cosine':
+        return d_cosine(x, y), 1.0
+    if method == 'corr':
+        return d_corr(x, y), 1.0
+    if method == 'spearman':
+        return d_spearman(x, y), 1.0
+    if method in ('kendall', 'tau-b'):
+        return d_tau_b(x, y), 1.0
+    if method == 'tau-a':
+        return d_tau_a(x, y), 1.0
+    if method == 'rho-a':
+        return d_rho_a(x, y), 1.0
+    if method == 'cosine_cov':
+        return d_whitened(x, y, vinv), 1.0
+    if method == 'corr_cov':
+        return d_whitened(centred(x), centred(y), vinv), 1.0
+    f = fidelity(a['g'], b['g'])
+    ta, tb = float(np.trace(a['g'])), float(np.trace(b['g']))
+    if method == 'bures':
+        return f / math.sqrt(ta * tb), 1.0
+    ca, cb = float(a['c']), float(b['c'])
+    mag = ca * ta + cb * tb
+    # tolerances of the squared Bures metric are relative to the traces; for RDMs of ordinary size never
+    # below the absolute value used before (unit = 2^larger exponent, 1 without scales)
+    unit = float(F(2) ** max(a['e'], b['e']))
+    return float(mag - 2 * math.sqrt(ca) * math.sqrt(cb) * f), max(unit, mag)
+
+
+def _exps(case, key, k):
+    sc = case.get('scale_of')
+    return sc[key][k] if sc else 0
+
 # ---------------------------------------------------------------- the check
 
 def _tol(method, sig, single=False):
@@ -235,9 +293,11 @@ def _fail(case, claim, what, observed, expected, **extra):
 
 
 def _eq(a, b, tol, scale=1.0):
+    """scale = 1.0 for similarities; for the squared Bures metric the magnitude from `define_pair`
+    (already max(unit, traces))"""
     if a is None or b is None:
         return a is None and b is None
-    return abs(a - b) <= tol * max(1.0, scale)
+    return abs(a - b) <= tol * scale
 
 
 def check_compare(case, call, permute_vec, permute_sigma):
@@ -246,41 +306,16 @@ def check_compare(case, call, permute_vec, permute_sigma):
     Y = [[fr(v) for v in r] for r in case['y']]
     tol = _tol(method, sig, 'float32' in case.get('dtypes', ()))
     bures = method.startswith('bures')
-    kern = {}
-    if bures:
-        for tag, S in (('x', X), ('y', Y)):
-            for i, v in enumerate(S):
-                g = kernel(n, v)
-                if np.linalg.eigvalsh(g).min() < -1e-9 or np.trace(g) <= 1e-12:
-                    return None           # not Euclidean-embeddable: outside the quantifier
-                kern[(tag, i)] = g
+    RX = [rec(n, v, _exps(case, 'x', i), method) for i, v in enumerate(X)]
+    RY = [rec(n, v, _exps(case, 'y', j), method) for j, v in enumerate(Y)]
+    if bures and not all(embeddable(r) for r in RX + RY):
+        return None           # not Euclidean-embeddable: outside the quantifier
     vinv = None
     if method in ('corr_cov', 'cosine_cov'):
         vinv = inverse(v_matrix(n, sig))
         if vinv is None:
             return None
-
-    def definition(x, y, gx=None, gy=None):
-        if method == 'cosine':
-            return d_cosine(x, y)
-        if method == 'corr':
-            return d_corr(x, y)
-        if method == 'spearman':
-            return d_spearman(x, y)
-        if method in ('kendall', 'tau-b'):
-            return d_tau_b(x, y)
-        if method == 'tau-a':
-            return d_tau_a(x, y)
-        if method == 'rho-a':
-            return d_rho_a(x, y)
-        if method == 'cosine_cov':
-            return d_whitened(x, y, vinv)
-        if method == 'corr_cov':
-            return d_whitened(centred(x), centred(y), vinv)
-        f = fidelity(gx, gy)
-        if method == 'bures':
-            return f / math.sqrt(np.trace(gx) * np.trace(gy))
-        return float(np.trace(gx) + np.trace(gy) - 2 * f)
+    want = [[define_pair(method, a, b, vinv) for b in RY] for a in RX]
 
     M = call(case['x'], case['y'], method, sig, 'array')
     if M == {'exc': 'InputModified'}:
@@ -292,16 +327,15 @@ def check_compare(case, call, permute_vec, permute_sigma):
         return _fail(case, 'shape', 'result is not (n_rdm1 x n_rdm2)', [len(M), len(M[0]) if M else 0],
                      [len(X), len(Y)])
     # 1. every entry equals the definition between x[i] and y[j]
-    for i, x in enumerate(X):
-        for j, y in enumerate(Y):
-            want = definition(x, y, kern.get(('x', i)), kern.get(('y', j)))
-            if want is None:
+    for i in range(len(X)):
+        for j in range(len(Y)):
+            w, scale = want[i][j]
+            if w is None:
                 continue
-            scale = float(np.trace(kern[('x', i)]) + np.trace(kern[('y', j)])) if method == 'bures_metric' else 1.0
-            if M[i][j] is None or not _eq(M[i][j], want, tol, scale):
+            if M[i][j] is None or not _eq(M[i][j], w, tol, scale):
                 return _fail(case, 'definition',
                              'an entry (i,j) of compare() is not the chosen measure between RDM i of the first '
-                             f'and RDM j of the second stack [{method}, i={i}, j={j}]', M[i][j], want, i=i, j=j)
+                             f'and RDM j of the second stack [{method}, i={i}, j={j}]', M[i][j], w, i=i, j=j)
             # 3. range
             if method != 'bures_metric' and abs(M[i][j]) > 1 + tol:
                 return _fail(case, 'range', f'{method}: similarity outside [-1, 1]', M[i][j], '[-1,1]')
@@ -316,9 +350,9 @@ def check_compare(case, call, permute_vec, permute_sigma):
                      [len(Y), len(X)])
     for i in range(len(X)):
         for j in range(len(Y)):
-            if definition(X[i], Y[j], kern.get(('x', i)), kern.get(('y', j))) is None:
+            w, scale = want[i][j]
+            if w is None:
                 continue
-            scale = float(np.trace(kern[('x', i)]) + np.trace(kern[('y', j)])) if method == 'bures_metric' else 1.0
             if not _eq(M[i][j], Mt[j][i], 2 * tol, scale):
                 return _fail(case, 'symmetry', f'{method}: compare(x,y)[{i},{j}] != compare(y,x)[{j},{i}]',
                              M[i][j], Mt[j][i])
@@ -330,14 +364,13 @@ def check_compare(case, call, permute_vec, permute_sigma):
         return _fail(case, 'shape', 'compare(x, x) is not (n_rdm1 x n_rdm1)', [len(S), len(S[0]) if S else 0],
                      [len(X), len(X)])
     for i, x in enumerate(X):
-        want = definition(x, x, kern.get(('x', i)), kern.get(('x', i)))
-        if want is None:
+        w, scale = define_pair(method, RX[i], RX[i], vinv)
+        if w is None:
             continue
         nondeg = True
         if method in ('tau-a', 'rho-a'):
             nondeg = len(set(x)) == len(x)
         target = 0.0 if method == 'bures_metric' else 1.0
-        scale = float(2 * np.trace(kern[('x', i)])) if method == 'bures_metric' else 1.0
         if nondeg and (S[i][i] is None or not _eq(S[i][i], target, tol, scale)):
             return _fail(case, 'self', f'{method}: an RDM compared with itself does not give {target}',
                          S[i][i], target)
@@ -354,9 +387,9 @@ def check_compare(case, call, permute_vec, permute_sigma):
                          [len(Mp), len(Mp[0]) if Mp else 0], [len(X), len(Y)])
         for i in range(len(X)):
             for j in range(len(Y)):
-                if definition(X[i], Y[j], kern.get(('x', i)), kern.get(('y', j))) is None:
+                w, scale = want[i][j]
+                if w is None:
                     continue
-                scale = float(np.trace(kern[('x', i)]) + np.trace(kern[('y', j)])) if method == 'bures_metric' else 1.0
                 if not _eq(M[i][j], Mp[i][j], 2 * tol, scale):
                     return _fail(case, 'perm', f'{method}: value changes when the conditions of both RDMs are '
                                  f'permuted together ({perm})', Mp[i][j], M[i][j])
@@ -373,52 +406,54 @@ def check_compare(case, call, permute_vec, permute_sigma):
                 a, b = M[i][j], Mr[i][j]
                 ftol = tol if 'float32' in case.get('dtypes', ()) else 1e-9
                 if (a is None) != (b is None) or (a is not None and abs(a - b) > 1e-12 + ftol * max(1.0, abs(a))):
+                    if case.get('base') and method == 'bures_metric' and a is not None and b is not None and \
+                            abs(a - b) <= (1e-12 + ftol) * want[i][j][1]:
+                        continue          # tiny / huge metrics: the bound is relative to the traces
                     return _fail(case, 'forms', f'{method}: arrays and RDMs objects ({form}) give different answers',
                                  b, a)
+    # 7. (round 5) the scale laws on the code itself: the listed RDMs times positive factors
+    if case.get('base'):
+        sc = case['scale_of']
+        Mb = call(case['base']['x'], case['base']['y'], method, sig, 'array')
+        if isinstance(Mb, dict) or len(Mb) != len(X) or any(len(r) != len(Y) for r in Mb):
+            return None           # the unscaled twin is judged when it is generated itself
+        es = set(sc['x'] + sc['y'])
+        for i in range(len(X)):
+            for j in range(len(Y)):
+                w, scale = want[i][j]
+                if w is None or Mb[i][j] is None:
+                    continue
+                if method != 'bures_metric':
+                    if M[i][j] is None or abs(M[i][j] - Mb[i][j]) > 2 * tol:
+                        return _fail(case, 'scale', f'{method}: the similarity changes when the RDMs are multiplied '
+                                     f'by positive factors (2^{sc["x"][i]} and 2^{sc["y"][j]})', M[i][j], Mb[i][j],
+                                     i=i, j=j)
+                elif len(es) == 1:
+                    f = float(F(2) ** sc['x'][0])
+                    if M[i][j] is None or abs(M[i][j] - f * Mb[i][j]) > 2 * tol * scale:
+                        return _fail(case, 'scale', 'bures_metric: multiplying both RDMs by 2^e does not multiply the '
+                                     f'squared metric by 2^e (e = {sc["x"][0]})', M[i][j], f * Mb[i][j], i=i, j=j)
     return None
 
 
-def define_matrix(method, n, sig, X, Y):
-    """matrix of the definitions (None where 0/0), or None when the stacks are outside the quantifier"""
-    kx = ky = None
-    if method.startswith('bures'):
-        kx, ky = [kernel(n, v) for v in X], [kernel(n, v) for v in Y]
-        for g in kx + ky:
-            if np.linalg.eigvalsh(g).min() < -1e-9 or np.trace(g) <= 1e-12:
-                return None
+def define_matrix(method, n, sig, X, Y, ex=None, ey=None):
+    """matrix of the definitions (None where 0/0; the squared Bures metric as (value, magnitude)), or None
+    when the stacks are outside the quantifier.  Scale-safe: see `rec` / `define_pair`."""
+    RX = [rec(n, v, ex[i] if ex else 0, method) for i, v in enumerate(X)]
+    RY = [rec(n, v, ey[j] if ey else 0, method) for j, v in enumerate(Y)]
+    if method.startswith('bures') and not all(embeddable(r) for r in RX + RY):
+        return None
     vinv = None
     if method in ('corr_cov', 'cosine_cov'):
         vinv = inverse(v_matrix(n, sig))
         if vinv is None:
             return None
     out = []
-    for i, x in enumerate(X):
+    for a in RX:
         row = []
-        for j, y in enumerate(Y):
-            if method == 'cosine':
-                w = d_cosine(x, y)
-            elif method == 'corr':
-                w = d_corr(x, y)
-            elif method == 'spearman':
-                w = d_spearman(x, y)
-            elif method in ('kendall', 'tau-b'):
-                w = d_tau_b(x, y)
-            elif method == 'tau-a':
-                w = d_tau_a(x, y)
-            elif method == 'rho-a':
-                w = d_rho_a(x, y)
-            elif method == 'cosine_cov':
-                w = d_whitened(x, y, vinv)
-            elif method == 'corr_cov':
-                w = d_whitened(centred(x), centred(y), vinv)
-            else:
-                f = fidelity(kx[i], ky[j])
-                if method == 'bures':
-                    w = f / math.sqrt(np.trace(kx[i]) * np.trace(ky[j]))
-                else:
-                    w = (float(np.trace(kx[i]) + np.trace(ky[j]) - 2 * f),
-                         float(np.trace(kx[i]) + np.trace(ky[j])))
-            row.append(w)
+        for b in RY:
+            w, mag = define_pair(method, a, b, vinv)
+            row.append((w, mag) if method == 'bures_metric' else w)
         out.append(row)
     return out
 
